@@ -27,6 +27,7 @@ def fork_call(fn, arg, wall_cap_s):
         code = 0
         try:
             os.close(r)
+            os.setpgrp()   # so that a timeout can kill helpers it forked too
             faulthandler.dump_traceback_later(max(1.0, wall_cap_s - 0.5),
                                               exit=False, file=sys.stderr)
             try:
@@ -61,10 +62,11 @@ def fork_call(fn, arg, wall_cap_s):
             chunks.append(b)
     os.close(r)
     if timed_out:
-        try:
-            os.kill(pid, signal.SIGKILL)
-        except ProcessLookupError:
-            pass
+        for killer in (os.killpg, os.kill):
+            try:
+                killer(pid, signal.SIGKILL)
+            except (ProcessLookupError, PermissionError):
+                pass
         os.waitpid(pid, 0)
         return {"harness_error": "run exceeded wall cap of %.0fs" % wall_cap_s}
     _, status = os.waitpid(pid, 0)
